@@ -86,7 +86,10 @@ def make_cases(ctx):
                     else:
                         h12 = h % 12 or 12
                         s, t = "%d %s" % (h12, "AM" if h < 12 else "PM"), (h, 0, 0, 0)
-                    zone = ZONES[0] if rng.random() < 0.6 or not (1990 <= by <= 2050) else rng.choice(ZONES[1:])
+                    zone = ZONES[0] if rng.random() < 0.6 or not (2000 <= by <= 2037) else rng.choice(ZONES[1:])
+                    if zone[0] != "UTC":     # the offset the zone really had on that day (Kiritimati and Kathmandu changed theirs before 2000)
+                        import pytz
+                        zone = (zone[0], int(pytz.timezone(zone[0]).utcoffset(datetime.datetime(by, bm, bd, 12)).total_seconds()))
                     add("time", pref, base, s, t=t, zone=zone)
                 # month-only / day-and-month / two-digit year
                 for m in (range(1, 13) if not ctx.quick() else rng.sample(range(1, 13), 3) + [bm]):
